@@ -747,7 +747,7 @@ fn stream_reconstruct(rng: &mut Rng, out: &mut Out, thorough: bool) {
         let mut coq_recv_uncles: Vec<u64> = vec![];
         let mut uncle_id: HashMap<packed::Byte32, u64> = HashMap::new();
         uncle_id.insert(genesis_hash.clone(), 0);
-        let drop_one_given = unverified && rng.chance(1, 6);
+        let drop_one_given = rng.chance(1, 7);
         for (k, u) in uks.iter().enumerate() {
             match u {
                 UK::Given(b, id) => {
@@ -813,6 +813,14 @@ fn stream_reconstruct(rng: &mut Rng, out: &mut Out, thorough: bool) {
         }
         // ---- run the implementation
         let verify_ok = ckb_sync::verif_compact_block_verify(&compact).is_ok();
+        // BlockUnclesVerifier stands between a BlockTransactions reply and reconstruct_block
+        let uncles_ok = ckb_sync::verif_block_uncles_verify(&compact, &uncles_index, &recv_uncles).is_ok();
+        if uncles_ok && recv_uncles.len() != uncles_index.len() {
+            out.violation(
+                &format!("BlockUnclesVerifier accepts a reply with {} uncle(s) for {} requested index(es); reconstruct_block then indexes the received uncles by position ('have checked the indexes')", recv_uncles.len(), uncles_index.len()),
+                json!({"stream": "reconstruct", "compact_block": hex(compact.as_slice()), "uncles_index": uncles_index, "received_uncles": recv_uncles.iter().map(|u| hex(u.data().as_slice())).collect::<Vec<_>>()}),
+                None);
+        }
         let active = node.relayer.shared().active_chain();
         let res = silent(|| rt.block_on(node.relayer.reconstruct_block(&active, &compact, recv.clone(), &uncles_index, &recv_uncles)));
         out.evaluations += 1;
@@ -830,8 +838,8 @@ fn stream_reconstruct(rng: &mut Rng, out: &mut Out, thorough: bool) {
         let obs: String = match &res {
             Err(p) => {
                 out.count("recon_panic");
-                if verify_ok && !(drop_one_given) {
-                    out.violation(&format!("reconstruct_block panicked on a compact block that passed CompactBlockVerifier: {p}"), ctx.clone(), None);
+                if verify_ok && uncles_ok {
+                    out.violation(&format!("reconstruct_block panicked on a compact block that passed CompactBlockVerifier with uncles that passed BlockUnclesVerifier: {p}"), ctx.clone(), None);
                 }
                 "OPanic".into()
             }
